@@ -121,7 +121,7 @@ func runCLI(ctx context.Context, r *report.Run, cs []Case) int {
 		r.CaseDistinct(len(c.S) > 0)
 		if len(res[i].p) > 0 {
 			d := stateOf(c.S).Build()
-			r.Violate(classify(d), fmt.Sprintf("CLI state=%v spelling=%d: %s", c.S, c.Spelling, strings.Join(res[i].p, " | ")), map[string]any{"cli": c})
+			r.Violate(classify(d, res[i].p), fmt.Sprintf("CLI state=%v spelling=%d: %s", c.S, c.Spelling, strings.Join(res[i].p, " | ")), map[string]any{"cli": c})
 		}
 	}
 	return n
